@@ -88,7 +88,8 @@ pub struct HrScn {
     pub varied: bool,
     pub kind: RKind,
     pub ops: Vec<ROp>,
-    /// 0 = plain cursor, else BufReader capacity
+    /// 0 = plain cursor, 1..=7 = a source handing out at most that many bytes per read call,
+    /// else BufReader capacity
     pub rbuf: u32,
     /// physical layout of the .shp: 0 = as the writer left it; 1 = records in reverse physical
     /// order with filler between them; 2 = rotated order with filler that looks like a record
@@ -204,6 +205,9 @@ enum Src {
     Plain(Cursor<Vec<u8>>),
     Buf(BufReader<Cursor<Vec<u8>>>),
     NoSeek(Cursor<Vec<u8>>),
+    /// at most this many bytes per read call (a pipe-like source: `Read::read` may always return
+    /// fewer bytes than asked for)
+    Short(Cursor<Vec<u8>>, usize),
 }
 impl std::io::Read for Src {
     fn read(&mut self, b: &mut [u8]) -> std::io::Result<usize> {
@@ -211,6 +215,10 @@ impl std::io::Read for Src {
             Src::Plain(c) => c.read(b),
             Src::Buf(c) => c.read(b),
             Src::NoSeek(c) => c.read(b),
+            Src::Short(c, m) => {
+                let n = b.len().min(*m);
+                c.read(&mut b[..n])
+            }
         }
     }
 }
@@ -219,6 +227,7 @@ impl std::io::Seek for Src {
         match self {
             Src::Plain(c) => c.seek(p),
             Src::Buf(c) => c.seek(p),
+            Src::Short(c, _) => c.seek(p),
             Src::NoSeek(_) => Err(std::io::Error::new(std::io::ErrorKind::Unsupported, "Illegal seek")),
         }
     }
@@ -226,6 +235,8 @@ impl std::io::Seek for Src {
 fn src(d: &[u8], rbuf: u32) -> Src {
     if rbuf == 0 {
         Src::Plain(Cursor::new(d.to_vec()))
+    } else if rbuf < 8 {
+        Src::Short(Cursor::new(d.to_vec()), rbuf as usize)
     } else {
         Src::Buf(BufReader::with_capacity(rbuf as usize, Cursor::new(d.to_vec())))
     }
@@ -775,7 +786,7 @@ pub fn alphabet(n: usize) -> Vec<ROp> {
 }
 
 /// The configurations swept: (reader, pairwise different sizes?, layout, number of records).
-const CONFIGS: [(RKind, bool, u8, usize); 22] = [
+const CONFIGS: [(RKind, bool, u8, usize); 26] = [
     (RKind::ShpIndex, true, 0, 3),
     (RKind::ShpNoIndex, true, 0, 3),
     (RKind::Full, true, 0, 3),
@@ -802,7 +813,15 @@ const CONFIGS: [(RKind, bool, u8, usize); 22] = [
     // a source that cannot seek
     (RKind::ShpIndexNoSeek, true, 0, 3),
     (RKind::ShpIndexNoSeek, false, 0, 4),
+    // filler of a few bytes between records in index order, on sources whose reads come back
+    // short inside the filler (short-read sources, BufReader capacities that are no divisor of
+    // anything): rbuf of these four is RBUF_EXTRA
+    (RKind::ShpIndex, false, 3, 3),
+    (RKind::ShpIndex, true, 3, 3),
+    (RKind::Full, false, 3, 3),
+    (RKind::ShpIndex, true, 2, 3),
 ];
+const RBUF_EXTRA: [u32; 4] = [3, 37, 113, 1];
 const MAX_ALPHABET: usize = 23;
 
 /// Sweep unit: (configuration, first letter). All histories up to `max_len` starting with that
@@ -821,7 +840,7 @@ pub fn sweep_unit(unit: u64, max_len: usize, core_len: usize, ctx: &mut Ctx, ctl
     let (max_len, core_len) = if n >= 4 { (max_len.saturating_sub(1).max(1), core_len.saturating_sub(1).max(1)) } else { (max_len, core_len) };
     // two types per configuration: a multi-vertex one (sizes can differ) and points (always equal)
     let ty = if varied { [3, 15, 28][cfg % 3] } else { [1, 11, 5][cfg % 3] };
-    let rbuf = [0u32, 16, 0][cfg % 3];
+    let rbuf = if cfg % CONFIGS.len() >= 22 { RBUF_EXTRA[cfg % CONFIGS.len() - 22] } else { [0u32, 16, 0][cfg % 3] };
     let Some(f) = produce(&file_for(ty, n, varied)) else {
         ctx.fail("HARNESS", "invalid-scenario", "producer", "cannot produce the file".to_string());
         ctl.after_case(ctx, || Scenario::HistR(HrScn { ty, n: n as u8, varied, kind, ops: vec![], rbuf, layout }));
